@@ -129,6 +129,8 @@ def run(ctx: Ctx):
     close = ctx.func("GroFile.close")
     parse = ctx.func("GroFile.parse_atomline")
     readline = ctx.func("GroFile.readline")
+    from ..util import persistent_state
+    persistent_state(ctx, "R14.5", [f_ for f_ in (ctx.repo.func(q_, required=False) for q_ in ('GroFile.__init__', 'GroFile._load_and_verify', 'GroFile._load_box_matrix', 'GroFile.close', 'GroFile._write_closing_info')) if f_ is not None], "opening and closing a coordinate file")
 
     # ---------------------------------------------------------------- R14.1
     pm = parents_map(setup.node)
